@@ -77,8 +77,9 @@ def check_grid(ctx, D, pl, start, stop, num, what, sig="approx"):
     Vp[: V.shape[0]] = V
     Tp = np.zeros((depth, num))
     Tp[: T.shape[0]] = T
-    on_grid = all(np.min(np.abs(grid - x)) <= 1e-12 for p in D for x in p)
-    tol = 1e-12 if on_grid else step / 2.0 + 1e-9
+    on_grid = all(np.min(np.abs(grid - x)) <= 1e-12 * max(1.0, abs(x)) * (1.0 if step >= 1e-3 else step) for p in D for x in p)
+    scale = max(1.0, abs(start), abs(stop))
+    tol = 1e-12 * scale if on_grid else step / 2.0 + 1e-9 * min(scale, max(step, 1e-300) * 1e6)
     err = np.abs(Vp - Tp)
     if not np.all(err <= tol):
         k, i = np.unravel_index(np.argmax(err), err.shape)
@@ -147,6 +148,17 @@ def run_case(case, ctx):
                     elif not np.all(np.abs(V - T) <= 1e-12):
                         ctx.violation("vectorize", "vectorize(exact) differs from the true landscape at the grid nodes",
                                       observed=V.tolist(), expected=T.tolist(), extra={"D": D, "start": vstart, "stop": vstop, "num_steps": num})
+    # translated (negative coordinates, a birth at exactly 0 after negative ones) and rescaled copies of
+    # the whole configuration: the same oracle must hold
+    for c_, a_ in ((-2.0, 1.0), (-0.75, 1.0), (0.0, 0.1), (1024.0, 1.0), (0.0, 1e-6)):
+        D2 = [[a_ * b + c_, a_ * d + c_] for b, d in D]
+        A2 = np.array(D2, dtype=float)
+        for g in (GRIDS[0], GRIDS[2]):
+            start, stop = a_ * g[0] + c_, a_ * g[1] + c_
+            for num in (4, 7, 13):
+                ctx.state((D2, start, stop, num))
+                pl = quiet(ctx, PersLandscapeApprox, dgms=[A2], hom_deg=0, num_steps=num, start=start, stop=stop)
+                check_grid(ctx, D2, pl, start, stop, num, "translated by %r, scaled by %r" % (c_, a_), sig="approx-affine")
     # death vector
     for arr in ([A, decoy], [A[::-1].copy()]):
         dv = quiet(ctx, death_vector, arr)
